@@ -28,6 +28,36 @@ def generates(eng) -> List[FuncInfo]:
     return [g for g in prog.all_overrides(base, "generate") if g.cls.qual != base.qual]
 
 
+def pure_of_scalars(f) -> bool:
+    """every parameter is annotated str/int/float/bool, and the body reads only its parameters, locals, constants, builtins and
+    string/re methods: the memo key (the arguments) determines the result"""
+    ps = [a for a in f.node.args.posonlyargs + f.node.args.args + f.node.args.kwonlyargs]
+    if not ps or f.node.args.vararg or f.node.args.kwarg or f.cls is not None:
+        return False
+    for a in ps:
+        if a.annotation is None or ast.unparse(a.annotation) not in ("str", "int", "float", "bool"):
+            return False
+    bound = {a.arg for a in ps} | {n.id for n in walk_local(f.node) if isinstance(n, ast.Name) and isinstance(n.ctx, ast.Store)}
+    for c in ast.walk(f.node):
+        if isinstance(c, (ast.comprehension,)):
+            for n in ast.walk(c.target):
+                if isinstance(n, ast.Name):
+                    bound.add(n.id)
+        if isinstance(c, ast.Lambda):
+            bound |= {a.arg for a in c.args.args}
+    SAFE = {"str", "int", "float", "bool", "len", "range", "enumerate", "zip", "sorted", "reversed", "min", "max", "sum", "abs", "ord", "chr", "list", "tuple", "any", "all", "isinstance", "re", "map", "filter", "repr", "format", "divmod", "round"}
+    body_nodes = [n for st in f.node.body for n in ast.walk(st)]
+    for n in body_nodes:
+        if isinstance(n, ast.Name) and isinstance(n.ctx, ast.Load) and n.id not in bound and n.id not in SAFE:
+            return False
+    for n in body_nodes:
+        if isinstance(n, (ast.Global, ast.Nonlocal, ast.Yield, ast.YieldFrom, ast.Await)):
+            return False
+        if isinstance(n, ast.Call) and isinstance(n.func, ast.Name) and n.func.id in ("open", "input", "print", "eval", "exec", "getattr", "globals", "locals", "vars", "id", "hash"):
+            return False
+    return True
+
+
 def run(eng, rep) -> None:
     prog, cg, T = eng.prog, eng.cg, eng.T
     rep.explanation = (
@@ -353,7 +383,10 @@ def r172(eng, rep, reach) -> None:
         for d in f.decorators:
             dn = dotted(d.func if isinstance(d, ast.Call) else d) or ""
             if dn.split(".")[-1] in ("lru_cache", "cache", "cached_property"):
-                rep.violation("R17.2", f.file, f.qual, "@%s" % dn, "memoised function on a generate path: cached results survive into later generations of other schemas")
+                if pure_of_scalars(f):
+                    rep.ok("R17.2", f.file, f.qual, "@%s" % dn, "memoised, but a pure function of its str/int arguments (reads nothing else): a cached result is the result")
+                else:
+                    rep.violation("R17.2", f.file, f.qual, "@%s" % dn, "memoised function on a generate path: cached results survive into later generations of other schemas")
     # lazily initialised attributes of a generator object (cache idiom): survive into the next generation
     base = prog.cls("fcp.codegen.CodeGenerator")
     for ci in prog.subclasses(base.qual):
